@@ -56,11 +56,11 @@ def scan_sites():
     if os.path.exists(cache):
         try:
             c = json.load(open(cache))
-            if c.get("fp") == fp:
-                return c["sites"], c.get("err", "")
+            if c.get("fp") == fp and "caches" in c:
+                return c["sites"], c.get("err", ""), c["caches"]
         except Exception:  # noqa
             pass
-    sites, err = [], ""
+    sites, err, caches = [], "", []
     try:
         common.ensure_gowork()
         os.makedirs(os.path.join(common.BUILD, "bin"), exist_ok=True)
@@ -86,6 +86,7 @@ def scan_sites():
                 raise RuntimeError("c19scan failed: " + p.stderr[-1500:])
             res = json.loads(p.stdout)
             sites = res["sites"]
+            caches = [{k: c[k] for k in ("file", "owner", "type", "hash", "writes")} for c in res.get("caches", [])]
             # packages that do not type-check (export data of a dependency missing while the build cache is being filled
             # by a concurrent build, or a /repo that does not compile): try once more, then give up loudly
             if not res.get("type_errors"):
@@ -97,10 +98,10 @@ def scan_sites():
     except Exception as ex:  # noqa
         err = "%s" % (ex,)
     try:
-        json.dump({"fp": fp, "sites": sites, "err": err}, open(cache, "w"))
+        json.dump({"fp": fp, "sites": sites, "err": err, "caches": caches}, open(cache, "w"))
     except Exception:  # noqa
         pass
-    return sites, err
+    return sites, err, caches
 
 
 SCANNER_EXPECT = {"copyMap": "pure", "namedMap": "pure", "sortedKeys": "collect_sorted", "sortedLater": "escaping", "sum": "escaping",
@@ -134,7 +135,7 @@ def coq_str(t):
 def translate():
     """never raises (every property's check runs every translator): a failed scan yields scan_ok = false, which only
     breaks C19's own classification lemma"""
-    sites, err = scan_sites()
+    sites, err, caches = scan_sites()
     cls = {"pure": "Pure", "collect_sorted": "CollectSorted", "escaping": "Escaping"}
     rows = ["  mkSite %s %s %s %s" % (coq_str(x["file"]), coq_str(x["func"]), coq_str(x["hash"]), cls[x["class"]]) for x in sites]
     txt = ("(* GENERATED by props/c19.py translate() from /repo's sources (harness/c19scan: go/types over the export data of\n"
@@ -143,7 +144,13 @@ def translate():
            "From Coq Require Import String List.\nImport ListNotations.\nFrom Osmo Require Import C19.SiteTypes.\nOpen Scope string_scope.\n\n"
            "Definition scan_ok : bool := %s.\n\n"
            "Definition sites : list site := [\n%s\n].\n" % ("false" if err else "true", ";\n".join(rows)))
-    return {"Gen/C19_sites.v": txt}
+    crow = ["  mkCSite %s %s %s" % (coq_str(c["file"]), coq_str(c["owner"]), coq_str(c["hash"])) for c in caches]
+    ctxt = ("(* GENERATED by props/c19.py translate() from /repo's sources (harness/c19scan) - do not edit. In-memory state that outlives a\n"
+            "   transaction: struct fields of map / sync.Map type and package-level variables that are written inside function bodies\n"
+            "   (file of the declaration, Type.field or variable, hash of the normalised list of writing statements). *)\n"
+            "From Coq Require Import String List.\nImport ListNotations.\nFrom Osmo Require Import C19.SiteTypes.\nOpen Scope string_scope.\n\n"
+            "Definition caches : list csite := [\n%s\n].\n" % ";\n".join(crow))
+    return {"Gen/C19_sites.v": txt, "Gen/C19_caches.v": ctxt}
 
 
 # ---------------------------------------------------------------------------------------------
@@ -415,6 +422,55 @@ def gen_msg(r, acc, nacc, state):
     ])
 
 
+def inject_cache_scenarios(r, blocks, nacc):
+    """transactions that touch keeper-level in-memory caches and then FAIL, followed by transactions whose outcome would
+    depend on a stale cache entry (a continuously running node keeps the entry, a restarted node does not):
+      b   : [create balancer pool foo/usdc -> gets id N ; swap through poolmanager on pool N (caches N -> gamm) ; failing msg]
+            => the whole tx is rolled back, pool N does not exist, the cache entry may survive
+      b+1 : swap on pool N (must fail the same way, with the same gas, on both nodes) ; create a CONCENTRATED pool foo/usdc (gets id N)
+      b+2 : position in pool N ; b+3 : swaps on pool N and on the still unused id N+1"""
+    def tx(acc, msgs, kinds):
+        return {"acc": acc, "msgs": msgs, "kinds": kinds, "gas": GAS, "fee_denom": "stake", "fee_amt": str(GAS * 3 // 100)}
+
+    def strip_creates(block, keep_acc):
+        block["txs"] = [t for t in block["txs"] if t["acc"] != keep_acc and not any(k in ("create_bal", "create_cl") for k in t["kinds"])]
+    nsc = r.range(1, 2)
+    starts = sorted(set(r.range(2, len(blocks) - 5) for _ in range(nsc)))
+    for b0 in starts:
+        acc = r.below(nacc)
+        A = "$ACC(%d)" % acc
+        for j in range(4):
+            strip_creates(blocks[b0 + j], acc)
+            blocks[b0 + j]["dt"] = min(blocks[b0 + j]["dt"], 60)
+        create_bal = {"@type": "/osmosis.gamm.poolmodels.balancer.v1beta1.MsgCreateBalancerPool", "sender": A,
+                      "pool_params": {"swap_fee": "0.003", "exit_fee": "0"},
+                      "pool_assets": [{"token": coin("foo", r.range(10**7, 10**9)), "weight": "1"}, {"token": coin("usdc", r.range(10**7, 10**9)), "weight": "1"}],
+                      "future_pool_governor": ""}
+
+        def swap(pool_ph, amt, t="/osmosis.poolmanager.v1beta1.MsgSwapExactAmountIn"):
+            return {"@type": t, "sender": A, "routes": [{"pool_id": pool_ph, "token_out_denom": "usdc"}],
+                    "token_in": coin("foo", amt), "token_out_min_amount": "1"}
+        fail = {"@type": "/cosmos.bank.v1beta1.MsgSend", "from_address": A, "to_address": "$ACC(%d)" % ((acc + 1) % nacc), "amount": [coin("nosuchdenom", 1)]}
+        blocks[b0]["txs"].insert(r.below(len(blocks[b0]["txs"]) + 1),
+                                 tx(acc, [create_bal, swap("$NEXTPOOL(0)", 10**5), swap("$NEXTPOOL(0)", 10**4, "/osmosis.gamm.v1beta1.MsgSwapExactAmountIn"), fail],
+                                    ["create_bal", "swap_new_pool", "gamm_swap_new_pool", "failing_msg"]))
+        create_cl = {"@type": "/osmosis.concentratedliquidity.poolmodel.concentrated.v1beta1.MsgCreateConcentratedPool", "sender": A,
+                     "denom0": "foo", "denom1": "usdc", "tick_spacing": "100", "spread_factor": "0.001"}
+        blocks[b0 + 1]["txs"].insert(0, tx(acc, [swap("$NEXTPOOL(0)", 10**4)], ["swap_unused_pool_id"]))
+        acc2 = (acc + 1) % nacc
+        strip_creates(blocks[b0 + 1], acc2)
+        blocks[b0 + 1]["txs"].append(tx(acc2, [dict(create_cl, sender="$ACC(%d)" % acc2)], ["create_cl_reusing_id"]))
+        pos = {"@type": "/osmosis.concentratedliquidity.v1beta1.MsgCreatePosition", "pool_id": "$LASTPOOL(0)", "sender": A,
+               "lower_tick": "-100000", "upper_tick": "100000", "tokens_provided": [coin("foo", 10**8), coin("usdc", 10**8)],
+               "token_min_amount0": "0", "token_min_amount1": "0"}
+        blocks[b0 + 2]["txs"].insert(0, tx(acc, [pos], ["cl_create_reused_id"]))
+        blocks[b0 + 3]["txs"].insert(0, tx(acc, [swap("$LASTPOOL(0)", 10**5), swap("$LASTPOOL(0)", 10**4, "/osmosis.gamm.v1beta1.MsgSwapExactAmountIn")],
+                                           ["swap_reused_id", "gamm_swap_reused_id"]))
+        strip_creates(blocks[b0 + 3], acc2)
+        blocks[b0 + 3]["txs"].append(tx(acc2, [dict(swap("$NEXTPOOL(0)", 10**4), sender="$ACC(%d)" % acc2)], ["swap_unused_pool_id"]))
+    return starts
+
+
 def gen_workload(r, idx, tier):
     nacc = r.range(5, 8)
     nblocks = 30 if tier == "quick" else r.range(30, 50)
@@ -457,8 +513,11 @@ def gen_workload(r, idx, tier):
                 stt[key] = True
             elif val not in stt[key]:
                 stt[key].append(val)
+    poison_blocks = inject_cache_scenarios(r, blocks, nacc)
     exp = sorted(set([r.range(1, nblocks - 4), r.range(nblocks // 2, nblocks - 2)])) if True else []
-    return {"name": "w%d" % idx, "nacc": nacc, "setup": setup, "blocks": blocks, "export_at": exp}
+    # node B restarts after a few random blocks and right after every block that left a rolled-back pool creation behind
+    restarts = sorted(set([r.range(0, nblocks - 2) for _ in range(r.range(2, 4))] + list(poison_blocks)))
+    return {"name": "w%d" % idx, "nacc": nacc, "setup": setup, "blocks": blocks, "export_at": exp, "restart_at": restarts}
 
 
 # ---------------------------------------------------------------------------------------------
@@ -477,10 +536,12 @@ def run_pairs(binary, workloads, with_exports=True):
     """-> list of (obsA, obsB); A = variant 0 (with the export points), B = variant 1 (fresh process, no export)"""
     jobs = []
     for w in workloads:
-        a = dict(w, variant=0, kv_known=[[k[0], k[1], k[2]] for k in KV_KNOWN])
-        b = dict(w, variant=1, export_at=[])
+        a = dict(w, variant=0, kv_known=[[k[0], k[1], k[2]] for k in KV_KNOWN], queries=True, restart_at=[])
+        # B: the same history on a node that is stopped and started again after some blocks (and serves no queries)
+        b = dict(w, variant=1, kv_known=[[k[0], k[1], k[2]] for k in KV_KNOWN], queries=False)
         if not with_exports:
             a["export_at"] = []
+            b["export_at"] = []
         jobs.append(a)
         jobs.append(b)
     res = [None] * len(jobs)
@@ -522,6 +583,17 @@ def cmp_tx(ta, tb):
     return None
 
 
+def gas_only_cause(ta, tb):
+    """a transaction that fails with the same code on both nodes but with different gas: name the cause if it is the known one"""
+    if ta.get("code") == 0 or ta.get("code") != tb.get("code") or ta.get("ev") != tb.get("ev") or ta.get("data") != tb.get("data"):
+        return None
+    la, lb = re.sub(r"\d+", "N", ta.get("log", "")), re.sub(r"\d+", "N", tb.get("log", ""))
+    pair = sorted([la.split(": ")[-1], lb.split(": ")[-1]])
+    if pair == sorted(["pool with ID N does not exist", "failed to find route for pool id (N)"]):
+        return "stale_pool_route_cache_after_rolled_back_pool_creation"
+    return None
+
+
 PTR = re.compile(r"\{\d{9,}\}|0x[0-9a-f]{6,}")
 
 
@@ -544,8 +616,16 @@ def cmp_blocks(ba, bb, same_chain, label, soft):
     for ti, (ta, tb) in enumerate(zip(ba["txs"], bb["txs"])):
         d = cmp_tx(ta, tb)
         if d:
-            v.append({"what": "%s: block height %d tx %d (%s): %s" % (label, ba["h"], ti, ",".join(ta.get("kinds") or []), d[1]),
-                      "rec": {"kind": label, "what": d[0], "msgs": ",".join(sorted(set(k.split(".")[-1] for k in (ta.get("kinds") or []))))}})
+            rec = {"kind": label, "what": d[0], "msgs": ",".join(sorted(set(k.split(".")[-1] for k in (ta.get("kinds") or []))))}
+            item = {"what": "%s: block height %d tx %d (%s): %s" % (label, ba["h"], ti, ",".join(ta.get("kinds") or []), d[1]), "rec": rec}
+            cause = gas_only_cause(ta, tb) if d[0] == "tx_gas_used" else None
+            if cause:
+                # same code / data / events, state untouched (the tx failed on both nodes): the history is still comparable
+                rec["cause"] = cause
+                item["what"] += " [both fail: %r vs %r]" % (ta.get("log", "")[-60:], tb.get("log", "")[-60:])
+                soft.append(item)
+                continue
+            v.append(item)
             break
         d = cmp_log(ta, tb)
         if d:
@@ -702,6 +782,23 @@ def cmp_pair(w, oa, ob, benign=None, notes=None):
                     continue                       # already reported at the export point
                 v.append({"what": "module %s: state at the end of the history differs between the original and the re-imported chain (export after block index %d): %s" % (mod, e["at"], path[:400]),
                           "rec": {"kind": "export_import", "what": "final_state", "module": mod, "field": export_field(path)}})
+    # the import path itself must be deterministic: process B exported at the same points, initialised a chain from
+    # its (identical) genesis and replayed the same blocks - app hashes of the two re-imported chains must agree
+    for ea, eb in zip(oa.get("exports") or [], ob.get("exports") or []):
+        if ea.get("err") or eb.get("err"):
+            if bool(ea.get("err")) != bool(eb.get("err")):
+                v.append({"what": "export/import after block index %d fails in one process only: %r vs %r" % (ea["at"], ea.get("err"), eb.get("err")),
+                          "rec": {"kind": "nondeterminism", "what": "import_failure"}})
+            continue
+        if ea.get("reimp") != eb.get("reimp"):
+            mods = sorted(k for k in ea["reimp"] if ea["reimp"][k] != (eb.get("reimp") or {}).get(k))
+            v.append({"what": "InitChain from the same exported genesis (after block index %d) yields different module state in the two processes: %s" % (ea["at"], mods),
+                      "rec": {"kind": "nondeterminism", "what": "import_state", "modules": ",".join(mods)}})
+        for ba, bb in zip(ea.get("tail") or [], eb.get("tail") or []):
+            d = cmp_blocks(ba, bb, True, "nondeterminism_after_import", soft)
+            if d:
+                v += d
+                break
     # one record per distinct class
     seen = set()
     out = []
@@ -784,7 +881,7 @@ def model_correspondence(pairs, workloads, out):
 def site_correspondence(out):
     """the generated inventory against the hand-written table of C19/Classify.v (the Coq lemma all_sites_classified is
     the authority; this is the readable report of which site broke it)"""
-    sites, err = scan_sites()
+    sites, err, caches = scan_sites()
     if err:
         out.mismatches.append({"what": "map-iteration scan failed: " + err[:600], "case": None})
         return sites
@@ -802,11 +899,29 @@ def site_correspondence(out):
     for t in sorted(table - have):
         out.mismatches.append({"what": "classified map-iteration site no longer exists in this form: %s, function %s (hash %s) - its code changed and must be re-classified" % t,
                                "case": None, "site": {"file": t[0], "func": t[1], "hash": t[2]}})
+    ctable = set(re.findall(r'mkCEntry\s+"([^"]*)"\s+"([^"]*)"\s+"([^"]*)"', txt))
+    chave = set((c["file"], c["owner"], c["hash"]) for c in caches)
+    known_owner = {(t[0], t[1]): t[2] for t in ctable}
+    for c in caches:
+        key = (c["file"], c["owner"], c["hash"])
+        if key in ctable:
+            continue
+        if (c["file"], c["owner"]) in known_owner:
+            what = ("the statements writing the in-memory state %s (%s) changed (an invalidation or update was added or removed) - it must be re-classified; writes now: %s"
+                    % (c["owner"], c["file"], " | ".join(c["writes"])[:900]))
+        else:
+            what = ("unclassified in-memory state that outlives a transaction: %s %s declared in %s, written by: %s"
+                    % (c["owner"], c["type"], c["file"], " | ".join(c["writes"])[:900]))
+        out.mismatches.append({"what": what, "case": None, "site": {"file": c["file"], "owner": c["owner"], "hash": c["hash"]}})
+    for t in sorted(ctable - chave):
+        if (t[0], t[1]) not in set((c["file"], c["owner"]) for c in caches):
+            out.mismatches.append({"what": "classified in-memory state no longer exists: %s in %s" % (t[1], t[0]), "case": None})
+    out.ncaches = len(caches)
     return sites
 
 
 def strip_case(w):
-    return {"name": w["name"], "nacc": w["nacc"], "setup": w["setup"], "blocks": w["blocks"], "export_at": w["export_at"]}
+    return {"name": w["name"], "nacc": w["nacc"], "setup": w["setup"], "blocks": w["blocks"], "export_at": w["export_at"], "restart_at": w.get("restart_at", [])}
 
 
 def run_workloads(workloads, out, binary=None):
@@ -884,6 +999,7 @@ def correspond(tier, seed, model_ok):
     for x in sites:
         cls[x["class"]] = cls.get(x["class"], 0) + 1
     out.distribution["map_iteration_sites"] = cls
+    out.distribution["in_memory_state_sites"] = getattr(out, "ncaches", 0)
     out.distribution["model_import_cases (epochs + keyed records)"] = nmodel
     out.notes = sorted(out.xnotes) + ["raw-state differences canonicalised away (no observable effect found, see KV_KNOWN): " + ", ".join(sorted(out.benign))]
     return out
@@ -967,6 +1083,9 @@ SCOPE = ("partial. PROVED (Coq, axiom-free): (a) permutation invariance of every
          "the iteration order as an adversarial permutation, the generic theorems for sorted-keys and collect-then-sort sites (tokenfactory forceTransfer, pool-incentives "
          "UpdateDistrRecords, lockup writeDurationValuesToAccumTree / InitializeAllSyntheticLocks, gamm UpdateMigrationRecords, smart-account isSuperset, upgrade handlers v23-v25), "
          "and totality of the classification over the inventory regenerated from the sources on every run (two sites are node-local: registerStoreKeys, telemetry); "
+         "(a') a second generated inventory of in-memory state that outlives a transaction (keeper fields / package variables of map or sync.Map type, "
+         "identified by the hash of the statements writing them) with a hand classification and totality lemma; poolmanager's pool-route cache is modelled: a committed "
+         "SetPoolRoute invalidates (proved), a rolled-back pool creation leaves a stale entry and a restarted node answers with different gas (REFUTED, finding F19-16); "
          "(b) export/import round trip and equality of all later results for TWO modelled module states: x/epochs (C17's timer state; equal apart from "
          "CurrentEpochStartHeight, which the code overwrites - the exact round trip is REFUTED, finding F19-2) and a generic keyed-records + last-id counter + rebuilt "
          "derived total module standing for lockup / incentives / twap-like stores. "
@@ -979,7 +1098,10 @@ EXPLANATION = ("Static: harness/c19scan type-checks /repo's packages (go/types o
                "must cover every escaping site (vm_compute lemma), so a new or edited unsorted state-affecting site breaks the build and is reported with file and function. "
                "Dynamic: every generated workload (signed transactions of bank, lockup, gamm, poolmanager, concentrated-liquidity, incentives, tokenfactory, superfluid, "
                "staking, distribution incl. a malformed stream; day/week epoch boundaries; protorev back-running; fees in three denoms) runs through FinalizeBlock+Commit of the "
-               "real application in two fresh processes (GOMAXPROCS 16 vs 1, different GC pressure, commutative harness actions permuted) from a constant genesis; the oracle is the "
+               "real application in two fresh processes (A: GOMAXPROCS 16, keeps running and serves read-only queries between blocks; B: GOMAXPROCS 1, different GC pressure, commutative harness "
+               "actions permuted, and the node is STOPPED AND STARTED AGAIN - new application instance over the same database - after 3-5 blocks incl. right after every block that "
+               "contains a rolled-back pool creation) from a constant genesis; the workload contains transactions that fail after touching keeper-level caches (create pool + swap "
+               "through it + failing message; later a pool of another type gets the same id; swaps on the reused and on the unused id); the oracle is the "
                "property: equal app hash, per-store hashes, block events and per-transaction code/codespace/gas/data/ordered events after every block. At two export points per "
                "workload the whole application is exported, a fresh application is InitChain'ed from it, and compared: per-module exported genesis (proto-JSON, field by field), "
                "raw key/value content of every store, registered invariants, and - after copying the original's entries over the known differences - the results of the "
